@@ -358,7 +358,7 @@ def unpack(format: str, buffer: bytes) -> tuple[Any, ...]:
         # Match text with a regular expression derived from the picture to see if it's valid.
         text = buffer.decode("CP037")
         logger.debug(f"estruct.unpack: {buffer!r} == {text=}")
-        if not re.match(representation.pattern, text):
+        if not re.match(representation.pattern, text, re.DOTALL):
             raise ValueError(
                 f"{text!r} doesn't match pattern {representation.pattern!r}"
             )
